@@ -399,25 +399,29 @@ structure Hdr where
   unit : String
   labels : String × String × String
 
+/-- One collection from a header and its values: the class follows the frequency, and the
+    constructor checks of that class are applied. -/
+def buildOne {α : Type} (freq : Freq) (h : Hdr) (v : List α) : Except Err (Coll α) :=
+  let p := h.period
+  let m := h.labels
+  match freq with
+  | .steps _ =>
+    -- HourlyContinuousCollection: start hour 0, end hour 23, len(values) == len(period)
+    if p.stHour ≠ 0 ∨ p.endHour ≠ 23 then .error .assert
+    else if v.length ≠ p.len then .error .assert
+    else .ok ⟨.hourly, h.dtype, h.unit, p, m.1, m.2.1, m.2.2, v, []⟩
+  | .daily =>
+    if v.length ≠ p.doys.length ∨ v.length = 0 then .error .assert
+    else .ok ⟨.daily, h.dtype, h.unit, p, m.1, m.2.1, m.2.2, v, p.doys⟩
+  | .monthly =>
+    if v.length ≠ p.months.length ∨ v.length = 0 then .error .assert
+    else .ok ⟨.monthly, h.dtype, h.unit, p, m.1, m.2.1, m.2.2, v, p.months⟩
+  | .annual => .error .assert   -- not reached: annual data returns before
+
 /-- Build the collections from headers and value lists (`zip` truncates). -/
 def buildColls {α : Type} (freq : Freq) (headers : List Hdr) (vals : List (List α)) :
     Except Err (List (Coll α)) :=
-  (headers.zip vals).mapM fun (h, v) =>
-    let p := h.period
-    let m := h.labels
-    match freq with
-    | .steps _ =>
-      -- HourlyContinuousCollection: start hour 0, end hour 23, len(values) == len(period)
-      if p.stHour ≠ 0 ∨ p.endHour ≠ 23 then .error .assert
-      else if v.length ≠ p.len then .error .assert
-      else .ok ⟨.hourly, h.dtype, h.unit, p, m.1, m.2.1, m.2.2, v, []⟩
-    | .daily =>
-      if v.length ≠ p.doys.length ∨ v.length = 0 then .error .assert
-      else .ok ⟨.daily, h.dtype, h.unit, p, m.1, m.2.1, m.2.2, v, p.doys⟩
-    | .monthly =>
-      if v.length ≠ p.months.length ∨ v.length = 0 then .error .assert
-      else .ok ⟨.monthly, h.dtype, h.unit, p, m.1, m.2.1, m.2.2, v, p.months⟩
-    | .annual => .error .assert   -- not reached: annual data returns before
+  (headers.zip vals).mapM fun hv => buildOne freq hv.1 hv.2
 
 /-- Number of values per key of one run period, by frequency (`chunks`). -/
 def chunkOf (freq : Freq) (p : Period) : Nat :=
@@ -437,6 +441,52 @@ def convCols {α : Type} (conv : α → α) (flags : List Bool) (cols : List (Li
 def kwhFlags (hdr : List DictRow) (nPeriods : Nat) : List Bool :=
   (List.replicate nPeriods (hdr.map fun r => (typeUnitOf r).2 == "kWh")).flatten
 
+/-- `st_time, end_time = data[0][1], data[-1][1]` (IndexError on no rows). -/
+def timeSpan {α : Type} (data : List (DataRow α)) : Except Err (Nat × Nat) :=
+  match data.head?, data.getLast? with
+  | some a, some b => .ok (a.time, b.time)
+  | _, _ => .error .index
+
+/-- The time-table stage of `data_collections_by_output_name`: frequency and either the single run
+    period (`inr`; `none` for annual data) or, when first and last row lie in different environments
+    and the data is not annual, all run periods rebuilt from the whole `Time` table (`inl`). -/
+def periodsOf (time : List TimeRow) (stT enT : Nat) :
+    Except Err (Freq × (List Period ⊕ Option Period)) := do
+  let (rp, freq, mult) ← extractRunPeriod time stT enT
+  match mult, rp with
+  | true, some p => do
+    let ps ← allRunPeriods time (freq == .monthly) p.timestep p.leap
+    pure (freq, .inl ps)
+  | _, _ => pure (freq, .inr rp)
+
+/-- The headers of one run period: one per header row, with that row's own data type and unit. -/
+def hdrOf (hdr : List DictRow) (surface : Bool) (p : Period) : List Hdr :=
+  hdr.map fun r => ⟨p, (typeUnitOf r).1, (typeUnitOf r).2, metaOf surface r⟩
+
+/-- The assembly stage of `data_collections_by_output_name`: headers, (chunked) partition of the
+    time-ordered values, conversion of the `kWh` columns, collections by frequency. -/
+def assemble {α : Type} (conv : α → α) (hdr : List DictRow) (surface : Bool) (freq : Freq)
+    (periods : List Period ⊕ Option Period) (vals : List α) : Except Err (Result α) := do
+  let headers : List Hdr :=
+    if freq = .annual then []
+    else match periods with
+      | .inl ps => ps.flatMap (hdrOf hdr surface)
+      | .inr (some p) => hdrOf hdr surface p
+      | .inr none => []
+  let (raw, flags) ← match periods with
+    | .inl ps => do
+      let c ← partitionChunks vals (ps.map (chunkOf freq))
+      pure (c, kwhFlags hdr ps.length)
+    | .inr _ => do
+      let c ← partition vals hdr.length
+      pure (c, kwhFlags hdr 1)
+  let allValues := convCols conv flags raw
+  if freq = .annual then
+    pure (.annual (interleave allValues))
+  else do
+    let cs ← buildColls freq headers allValues
+    pure (.colls cs)
+
 /-- `data_collections_by_output_name(output_name)`; `conv` is the J -> kWh conversion of a value.
     Every header row keeps its own data type and unit; only the columns whose unit became `kWh` are
     converted; annual data of several environments gives one value per run period and key. -/
@@ -446,38 +496,9 @@ def queryAll {α : Type} (conv : α → α) (db : DB α) (q : NameQuery) : Excep
   | [] => .ok (.colls [])
   | _ :: _ => do
     let data := selectData db.data (hdr.map (·.idx))
-    let (stT, enT) ← match data.head?, data.getLast? with
-      | some a, some b => pure (a.time, b.time)
-      | _, _ => .error .index
-    let (rp, freq, mult) ← extractRunPeriod db.time stT enT
-    -- several run periods: rebuild all of them from the whole Time table
-    let periods : List Period ⊕ Option Period ← match mult, rp with
-      | true, some p => do
-        let ps ← allRunPeriods db.time (freq == .monthly) p.timestep p.leap
-        pure (.inl ps)
-      | _, _ => pure (.inr rp)
-    let hdrOf := fun (p : Period) => hdr.map fun r =>
-      (⟨p, (typeUnitOf r).1, (typeUnitOf r).2, metaOf q.surface r⟩ : Hdr)
-    let headers : List Hdr :=
-      if freq = .annual then []
-      else match periods with
-        | .inl ps => ps.flatMap hdrOf
-        | .inr (some p) => hdrOf p
-        | .inr none => []
-    let vals := data.map (·.value)
-    let (raw, flags) ← match periods with
-      | .inl ps => do
-        let c ← partitionChunks vals (ps.map (chunkOf freq))
-        pure (c, kwhFlags hdr ps.length)
-      | .inr _ => do
-        let c ← partition vals hdr.length
-        pure (c, kwhFlags hdr 1)
-    let allValues := convCols conv flags raw
-    if freq = .annual then
-      pure (.annual (interleave allValues))
-    else do
-      let cs ← buildColls freq headers allValues
-      pure (.colls cs)
+    let (stT, enT) ← timeSpan data
+    let (freq, periods) ← periodsOf db.time stT enT
+    assemble conv hdr q.surface freq periods (data.map (·.value))
 
 /-- The rows of the JOIN query of the run-period method (no ORDER BY: scan order of `ReportData`). -/
 def selectDataEnv {α : Type} (db : DB α) (rel : List Nat) (env : Nat) : List (DataRow α) :=
@@ -486,8 +507,23 @@ def selectDataEnv {α : Type} (db : DB α) (rel : List Nat) (env : Nat) : List (
      | some t => t.env == env
      | none => false)
 
-/-- `data_collections_by_output_name_run_period(output_name, run_period_index)` (one output name:
-    unit and data type of the first header row; annual data gives one value per key). -/
+/-- The assembly stage of the run-period method (one output name: unit and data type of the first
+    header row; annual data gives one value per key). -/
+def assembleRP {α : Type} (conv : α → α) (hdr : List DictRow) (h0 : DictRow) (surface : Bool)
+    (freq : Freq) (rp : Option Period) (vals0 : List α) : Except Err (Result α) := do
+  let (dtype, units) := typeUnitOf h0
+  let headers : List Hdr := match rp with
+    | some p => hdr.map fun r => ⟨p, dtype, units, metaOf surface r⟩
+    | none => []
+  let vals := if units = "kWh" then vals0.map conv else vals0
+  let allValues ← partition vals hdr.length
+  if freq = .annual then
+    pure (.annual (allValues.filterMap (·.head?)))
+  else do
+    let cs ← buildColls freq headers allValues
+    pure (.colls cs)
+
+/-- `data_collections_by_output_name_run_period(output_name, run_period_index)`. -/
 def queryRunPeriod {α : Type} (conv : α → α) (db : DB α) (name : String) (env : Nat) :
     Except Err (Result α) :=
   let q := NameQuery.single name
@@ -496,22 +532,9 @@ def queryRunPeriod {α : Type} (conv : α → α) (db : DB α) (name : String) (
   | [] => .ok (.colls [])
   | h0 :: _ => do
     let data := selectDataEnv db (hdr.map (·.idx)) env
-    let (stT, enT) ← match data.head?, data.getLast? with
-      | some a, some b => pure (a.time, b.time)
-      | _, _ => .error .index
+    let (stT, enT) ← timeSpan data
     let (rp, freq, _) ← extractRunPeriod db.time stT enT
-    let (dtype, units) := typeUnitOf h0
-    let headers : List Hdr := match rp with
-      | some p => hdr.map fun r => ⟨p, dtype, units, metaOf q.surface r⟩
-      | none => []
-    let vals0 := data.map (·.value)
-    let vals := if units = "kWh" then vals0.map conv else vals0
-    let allValues ← partition vals hdr.length
-    if freq = .annual then
-      pure (.annual (allValues.filterMap (·.head?)))
-    else do
-      let cs ← buildColls freq headers allValues
-      pure (.colls cs)
+    assembleRP conv hdr h0 q.surface freq rp (data.map (·.value))
 
 /-- `values_by_output_name(output_name)`: the flat value list in time order, unconverted. -/
 def valuesByName {α : Type} (db : DB α) (q : NameQuery) : List α :=
